@@ -10,6 +10,8 @@ REGISTRY = {
     "C01": ("engine", "check_C01"),
     "C14": ("engine", "check_C14"),
     "C20": ("paramcheck", "check_C20"),
+    "C10": ("syntax", "check_C10"),
+    "C11": ("syntax", "check_C11"),
     "C12": ("validate", "check_C12"),
     "C13": ("validate", "check_C13"),
     "C03": ("eems", "check_C03"),
